@@ -218,18 +218,17 @@ Proof.
   destruct (bind_core_post s n X r fresh Hobj Hnew') as [B Own].
   set (s' := bind_core s n X r fresh) in *.
   assert (Own' : forall c, c <> n -> own_meta s' c = own_meta s c).
-  { intros c Hc. apply Own; auto.
-    - intros r0 H0. apply Hpriv; auto.
-    - intros H1 H2. destruct (Hnew H1) as [K _]. rewrite (K H2).
-      intro H3. apply (r_mb _ _ R) in H3. contradiction. }
+  { intros c Hc. apply Own; [exact Hc | intros r0 H0; apply Hpriv; auto |].
+    intros H1 H2. destruct (Hnew H1) as [K _]. rewrite (K H2).
+    intro H3. apply (r_mb _ _ R) in H3. contradiction. }
   split; [|split].
-  - eapply trees_ok_decl; eauto. apply (b_decl _ _ _ _ B).
+  - apply (trees_ok_decl s s'); [apply (b_decl _ _ _ _ B) | exact T].
   - destruct R as [R1 R2 R3 R4 R5]. split.
     + intros x r1 Hx. destruct (Nat.eq_dec x n) as [->|Hc].
       * split; [apply R5; exact Hdn|]. rewrite (b_meta _ _ _ _ B) in Hx.
         destruct (cs_meta (st_cls s n)) as [r0|] eqn:E0; inversion Hx; subst r1.
         -- apply (b_mobjs _ _ _ _ B). apply (R1 n r0 E0).
-        -- apply (b_newobj _ _ _ _ B). reflexivity.
+        -- apply (b_newobj _ _ _ _ B). exact E0.
       * rewrite (b_other _ _ _ _ B x Hc) in Hx. destruct (R1 x r1 Hx). split; auto. apply (b_mobjs _ _ _ _ B); auto.
     + intros x y Hx. destruct (Nat.eq_dec x n) as [->|Hc].
       * rewrite (b_meta _ _ _ _ B) in Hx. destruct (cs_meta (st_cls s n)) as [r0|] eqn:E0.
@@ -293,4 +292,125 @@ Proof.
     specialize (Hs2 x Hin). apply orb_true_iff in Hs2. destruct Hs2 as [H|H].
     + apply Nat.eqb_eq in H. contradiction.
     + rewrite Hc in H. cbn in H. rewrite mref_eqb_refl in H. discriminate.
+  - intros _. split; [reflexivity | discriminate].
+Qed.
+
+(* ---------------------------------------------------------------- DefineClass *)
+Lemma resolve_fields_children s fs fields :
+  resolve_fields s fs = Some fields ->
+  forall dm, In dm (field_children fields) -> exists c, decl_of s c = Some dm.
+Proof.
+  revert fields. induction fs as [|[[x ty] dv] r IH]; intros fields; cbn.
+  - intro H; inversion H; subst. intros dm [].
+  - destruct (resolve_fields s r) as [r'|]; [|discriminate].
+    destruct ty as [| |c].
+    + intro H; inversion H; subst. cbn. apply IH; reflexivity.
+    + intro H; inversion H; subst. cbn. apply IH; reflexivity.
+    + destruct (cs_decl (st_cls s c)) as [d|] eqn:Ed; [|discriminate].
+      intro H; inversion H; subst. cbn. intros dm [<-|Hin].
+      * exists c. exact Ed.
+      * apply (IH r' eq_refl); exact Hin.
+Qed.
+
+(* the state right after the class statement, before __init_subclass__ runs the initialisers *)
+Definition def_base (s : sigma) (info : cinfo) (fields : list (pstr * fty cdecl * option dval)) : sigma :=
+  let n := ci_id info in
+  let s1 := updc s n (fun _ => w_decl (Some (CDecl info fields)) cs0) in
+  if ci_wiz info then
+    match ci_inner info with
+    | Some m => set_minit (set_mobj s1 (MI n) m) (ci_qn info) (MI n)
+    | None => s1
+    end
+  else s1.
+
+Lemma def_base_good s Gh def info fields :
+  Good s Gh def -> Gh (ci_id info) = None -> decl_of s (ci_id info) = None ->
+  (forall dm, In dm (field_children fields) -> exists c, decl_of s c = Some dm) ->
+  Good (def_base s info fields) Gh (ci_id info :: def) /\
+  cs_meta (st_cls (def_base s info fields) (ci_id info)) = None /\
+  decl_of (def_base s info fields) (ci_id info) <> None /\
+  (forall c, cs_meta (st_cls (def_base s info fields) c) <> Some (MI (ci_id info))) /\
+  (forall c, c <> ci_id info -> st_cls (def_base s info fields) c = st_cls s c) /\
+  (forall q, st_minit (def_base s info fields) q =
+     if ci_wiz info && (match ci_inner info with Some _ => true | None => false end) && Nat.eqb q (ci_qn info)
+     then Some (MI (ci_id info)) else st_minit s q).
+Proof.
+  intros (T & R & G & I & L) Hgh Hdn Hch.
+  set (n := ci_id info) in *. set (s2 := def_base s info fields) in *.
+  assert (Hg : G n = None) by (eapply gle_none; eauto).
+  set (D := CDecl info fields).
+  set (s1 := updc s n (fun _ => w_decl (Some D) cs0)).
+  assert (E1n : st_cls s1 n = w_decl (Some D) cs0) by (unfold s1; now rewrite updc_same).
+  assert (O1 : forall c, c <> n -> st_cls s1 c = st_cls s c) by (intros c Hc; unfold s1; now rewrite updc_other).
+  assert (Ecls : forall c, st_cls s2 c = st_cls s1 c).
+  { intro c. unfold s2, def_base. fold n. fold D. fold s1. destruct (ci_wiz info); [destruct (ci_inner info)|]; reflexivity. }
+  assert (Dmono : forall m dm, decl_of s m = Some dm -> decl_of s2 m = Some dm).
+  { intros m dm H. unfold decl_of. rewrite Ecls. destruct (Nat.eq_dec m n) as [->|Hm]; [congruence|]. now rewrite (O1 m Hm). }
+  assert (Dn : decl_of s2 n = Some D) by (unfold decl_of; rewrite Ecls, E1n; reflexivity).
+  assert (NoMI : forall c, cs_meta (st_cls s c) <> Some (MI n)).
+  { intros c H. apply (r_mi _ _ R) in H. congruence. }
+  assert (Meta2 : forall c, cs_meta (st_cls s2 c) = if Nat.eqb c n then None else cs_meta (st_cls s c)).
+  { intro c. rewrite Ecls. destruct (Nat.eqb c n) eqn:Ec.
+    - apply Nat.eqb_eq in Ec. subst. rewrite E1n. reflexivity.
+    - apply Nat.eqb_neq in Ec. now rewrite (O1 c Ec). }
+  assert (Mobj : forall r, st_mobjs s r <> None -> st_mobjs s2 r <> None).
+  { intros r Hr. unfold s2, def_base. fold n. fold D. fold s1.
+    destruct (ci_wiz info); [destruct (ci_inner info)|]; cbn; auto. destruct (mref_eqb r (MI n)); [discriminate | auto]. }
+  assert (Mobj' : forall r, r <> MI n -> st_mobjs s2 r = st_mobjs s r).
+  { intros r Hr. unfold s2, def_base. fold n. fold D. fold s1.
+    destruct (ci_wiz info); [destruct (ci_inner info)|]; cbn; auto. apply mref_eqb_neq in Hr. now rewrite Hr. }
+  assert (Own2 : forall c, c <> n -> own_meta s2 c = own_meta s c).
+  { intros c Hc. unfold own_meta. rewrite Meta2. apply Nat.eqb_neq in Hc. rewrite Hc.
+    destruct (cs_meta (st_cls s c)) as [r|] eqn:E; auto. apply Mobj'. intro; subst. eapply NoMI; eauto. }
+  assert (Minit : forall q, st_minit s2 q =
+     if ci_wiz info && (match ci_inner info with Some _ => true | None => false end) && Nat.eqb q (ci_qn info)
+     then Some (MI n) else st_minit s q).
+  { intro q. unfold s2, def_base. fold n. fold D. fold s1.
+    destruct (ci_wiz info); [destruct (ci_inner info)|]; cbn; auto. }
+  split; [|split; [|split; [|split; [|split]]]].
+  - split; [|split].
+    + (* trees *)
+      intros c d Hd. destruct (Nat.eq_dec c n) as [->|Hc].
+      * assert (d = D) by congruence. subst d. split; [reflexivity|]. split.
+        -- intros dm Hm. destruct (Hch dm Hm) as (c0 & Hc0).
+           assert (d_id dm = c0) by apply (T _ _ Hc0). subst c0. apply Dmono; exact Hc0.
+        -- intro Hin. unfold proper_ids in Hin. apply in_map_iff in Hin. destruct Hin as (dk & Ek & Hk).
+           apply proper_inv in Hk. destruct Hk as (dm & Hm & Hk). destruct (Hch dm Hm) as (c0 & Hc0).
+           assert (d_id dm = c0) by apply (T _ _ Hc0). subst c0.
+           assert (decl_of s (d_id dk) = Some dk).
+           { destruct Hk as [->|Hk]; auto. eapply trees_ok_proper; eauto. }
+           change (d_id D) with n in Ek. congruence.
+      * unfold decl_of in Hd. rewrite Ecls, (O1 c Hc) in Hd. destruct (T c d Hd) as (A & B & C).
+        split; [|split]; auto.
+    + (* refs *)
+      destruct R as [R1 R2 R3 R4 R5]. split.
+      * intros x r Hx. rewrite Meta2 in Hx. destruct (Nat.eqb x n); [discriminate|].
+        destruct (R1 x r Hx). split; [right|]; auto.
+      * intros x y Hx. rewrite Meta2 in Hx. destruct (Nat.eqb x n); [discriminate|]. eauto.
+      * intros x y Hx. rewrite Meta2 in Hx. destruct (Nat.eqb x n); [discriminate|].
+        pose proof (R3 x y Hx) as H. destruct (decl_of s y) eqn:E; [|congruence]. rewrite (Dmono _ _ E). discriminate.
+      * intros q r Hq. rewrite Minit in Hq.
+        destruct (ci_wiz info && _ && Nat.eqb q (ci_qn info)) eqn:Eb.
+        -- inversion Hq; subst r. exists n. split; [reflexivity|]. split; [congruence|].
+           unfold s2, def_base. fold n. fold D. fold s1.
+           destruct (ci_wiz info); [|discriminate]. destruct (ci_inner info); [|discriminate].
+           cbn. rewrite Nat.eqb_refl. discriminate.
+        -- destruct (R4 q r Hq) as (y & -> & Hy & Ho). exists y. split; [reflexivity|]. split; [|auto].
+           destruct (decl_of s y) eqn:E; [|congruence]. rewrite (Dmono _ _ E). discriminate.
+      * intros x Hx. destruct (Nat.eq_dec x n) as [->|Hc]; [left; reflexivity|]. right. apply R5.
+        unfold decl_of in *. rewrite Ecls, (O1 x Hc) in Hx. exact Hx.
+    + exists G. split; [|exact L]. intro c. unfold InvC. rewrite Ecls. destruct (Nat.eq_dec c n) as [->|Hc].
+      * rewrite E1n.
+        assert (Eom : om s2 n = meta0) by (unfold om, own_meta; rewrite Meta2, Nat.eqb_refl; reflexivity).
+        split; cbn; unfold gm; rewrite ?Hg, ?Eom; cbn; auto; try discriminate; try tauto.
+        -- repeat split; reflexivity.
+      * rewrite (O1 c Hc). apply (InvX_transfer' G s s2 c _ (I c)); auto.
+        intros m Hm. rewrite Ecls. destruct (Nat.eq_dec m n) as [->|Hmn].
+        -- exfalso. destruct (i_none _ _ _ _ (I n) Hg) as (H & _). contradiction.
+        -- now rewrite (O1 m Hmn).
+  - rewrite Meta2, Nat.eqb_refl. reflexivity.
+  - congruence.
+  - intros c H. rewrite Meta2 in H. destruct (Nat.eqb c n); [discriminate|]. eapply NoMI; eauto.
+  - intros c Hc. rewrite Ecls. apply O1; exact Hc.
+  - exact Minit.
 Qed.
